@@ -357,7 +357,8 @@ def run(ctx):
 
         # ---- the replay proper.  The spec names, for each expression, the value under each wrong
         # variant; expressions on which a variant differs are grouped so that the (known) deviations of
-        # the pinned tree cost one link per group instead of one link per expression: a group link that
+        # the tree (wild's level table; formerly also unsigned `/`, now fixed) cost one link per group
+        # instead of one link per expression: a group link that
         # asserts the VARIANT values and succeeds is a concrete observation "wild computes the variant
         # value, which differs from spec and GNU ld" for every member.
         VARIANTS = (("udiv", "div-unsigned"), ("wildprec", "prec-comparison-below-bitwise"),
